@@ -281,6 +281,12 @@ func (s *Solver) Check(ts *TermStore, extra *Term, wantModel bool, vars []*Term)
 		s.send("(pop 1)")
 	}
 	s.Queries[verdict]++
+	if verdict == Unknown && !gotErr {
+		// a timed-out incremental solver is not trusted any further: start a fresh
+		// process and re-assert the path condition (observed: z3 answering "sat" with
+		// a model that violates asserted constraints right after a timeout)
+		s.restart()
+	}
 	return verdict, m
 }
 
